@@ -110,6 +110,7 @@ type Block struct {
 	DateGranularity *int32
 	Zlib            bool
 	RawSizeOnRaw    bool
+	HasIndexData    bool
 	IndexData       []byte
 	Groups          []Group
 	ExtraStrings    []string // unused string-table entries
@@ -608,6 +609,7 @@ func (h *Header) Encode() []byte {
 type BlobOpt struct {
 	Zlib      bool
 	RawSize   bool // add raw_size to a raw blob
+	HasIndex  bool
 	IndexData []byte
 }
 
@@ -654,7 +656,14 @@ func FrameBlob(typ string, blob []byte, index []byte) []byte {
 
 // FileBlock is EncodeBlob + FrameBlob.
 func FileBlock(typ string, payload []byte, o BlobOpt) []byte {
-	return FrameBlob(typ, EncodeBlob(payload, o), o.IndexData)
+	idx := o.IndexData
+	if o.HasIndex && idx == nil {
+		idx = []byte{}
+	}
+	if !o.HasIndex {
+		idx = nil
+	}
+	return FrameBlob(typ, EncodeBlob(payload, o), idx)
 }
 
 // Encoded is an encoded file with its layout.
@@ -678,7 +687,7 @@ func (f *File) Encode() *Encoded {
 		e.Data = append(e.Data, fb...)
 	}
 	for _, b := range f.Blocks {
-		fb := FileBlock("OSMData", b.Encode(), BlobOpt{Zlib: b.Zlib, RawSize: b.RawSizeOnRaw, IndexData: b.IndexData})
+		fb := FileBlock("OSMData", b.Encode(), BlobOpt{Zlib: b.Zlib, RawSize: b.RawSizeOnRaw, HasIndex: b.HasIndexData, IndexData: b.IndexData})
 		e.Blocks = append(e.Blocks, frameOf(len(e.Data), fb))
 		e.Data = append(e.Data, fb...)
 	}
